@@ -140,6 +140,30 @@ def run(outcome, _harnesses):
         src += f
         calls.append("%s(%s)" % (name, ", ".join(str(i + 1) for i in range(nparams))))
         fns.append((name, ops, is_set, nparams))
+    # collision-chain / slot-reuse scenarios: the KEYS are concrete (0, 4, 8 share a bucket of the initial 4-bucket table), the values
+    # and the final probe key are symbolic: insert 0, 4, 1; remove 1; insert 8 (reuses the freed slot inside a non-empty bucket);
+    # insert 2; then look everything up
+    chains = []
+    for cname, ops, is_set, pattern in (
+            ("chain_map", "IIIRIIGGGGG", False, [0, "v", 4, "v", 1, "v", 1, 8, "v", 2, "v", 0, 4, 8, 2, "p"]),
+            ("chain_map_remove_head", "IIIRIIGGGG", False, [0, "v", 4, "v", 8, "v", 8, 12, "v", 1, "v", 0, 4, 12, "p"]),
+            ("chain_set", "IIIRIICCCC", True, [0, 4, 1, 1, 8, 2, 0, 4, 8, "p"])):
+        inner = "vf_%s_inner" % cname
+        f, nparams = gen_function(inner, ops, is_set)
+        assert nparams == len(pattern), (cname, nparams, len(pattern))
+        src += f
+        syms = ["s%d" % k for k, x in enumerate(pattern) if isinstance(x, str)]
+        args = []
+        k = 0
+        for x in pattern:
+            if isinstance(x, str):
+                args.append(syms[k])
+                k += 1
+            else:
+                args.append(str(x))
+        src += "fn vf_%s(%s) -> array<int> {\n  %s(%s)\n}\n" % (cname, ", ".join("%s: int" % q for q in syms), inner, ", ".join(args))
+        calls.append("vf_%s(%s)" % (cname, ", ".join("1" for _ in syms)))
+        chains.append(("vf_" + cname, ops, is_set, len(syms), pattern))
     src += "\n".join(calls) + "\n"
     prog = bytecode.compile_source(src)
     samples = []
@@ -148,9 +172,11 @@ def run(outcome, _harnesses):
     solver_s = 0.0
     rdir = os.path.join(VERIF, "replays", "C27")
     long_domain = [-(1 << 63), -1, 0, 1, 4, 5, 8, (1 << 63) - 1]
-    for name, ops, is_set, nparams in fns:
+    for name, ops, is_set, nparams, pattern in [f + (None,) for f in fns] + chains:
         entry = {"sequence": ops, "container": "set<int>" if is_set else "map<int,int>"}
-        long_seq = len(ops) >= 4
+        if pattern is not None:
+            entry["keys"] = "concrete %s, values and probe symbolic" % [x for x in pattern if not isinstance(x, str)]
+        long_seq = len(ops) >= 4 and pattern is None
         try:
             def build(i):
                 args = [i.make("int") for _ in range(nparams)]
@@ -171,7 +197,11 @@ def run(outcome, _harnesses):
         solver_s += m.solver_s
         if m.bound_hit:
             outcome.inconc("%s: path/step bound reached (%d paths)" % (name, len(done)))
-        exp = expected(ops, inp.leaves, is_set)
+        if pattern is None:
+            exp = expected(ops, inp.leaves, is_set)
+        else:
+            lv = iter(inp.leaves)
+            exp = expected(ops, [next(lv) if isinstance(x, str) else I(x) for x in pattern], is_set)
         entry["paths"] = len(done)
         verdict = "holds"
         for st in done:
